@@ -230,6 +230,25 @@ def _table(ctx, model):
                    if ok else
                    f"the {kind} function {fname} is differentiated without the "
                    f"allowed_nonsmoothness gate {list(allowed)} (or never raises)")
+    # the non-smooth branch returns functions.sign(p): that helper must build
+    # copysign(1, p)
+    fm, ffn = model.func("pymbolic.functions:sign")
+    okf = False
+    for ps in summarize(ffn, plain=True):
+        rv = ps.retval
+        xpar = ("param", ffn.args.args[0].arg)
+        okf = (ps.term == "return" and rv[0] == "call" and rv[1].endswith("Call")
+               and rv[2][0][0] == "call" and rv[2][0][1].endswith("Lookup")
+               and rv[2][0][2][1] == ("const", "copysign")
+               and rv[2][1] == ("lit", "tuple", (("const", 1), xpar)))
+    uses_sign = any(ps.term == "return" and ps.retval[0] == "call"
+                    and ps.retval[1] == "sign"
+                    for ps, gate, arity in seen.get("fabs", []))
+    ctx.ob("E/table/fabs", okf and uses_sign, fm.loc(ffn),
+           "d/dp fabs(p) = sign(p) = copysign(1, p)" if okf and uses_sign else
+           "the derivative of fabs is not sign(p) built as math.copysign(1, p) "
+           "(pymbolic.functions.sign builds something else, or the table row "
+           "does not use it)")
     ctx.ob("P/table/unknown-raises", final_raise, loc,
            "an unrecognised function raises" if final_raise else
            "map_math_functions_by_name has no raising fall-through for "
